@@ -1,6 +1,6 @@
 (* C19Cases.v — executable comparison of the codec model with recorded
    behaviour of joserfc.util / joserfc.rfc7518.util (correspondence check). *)
-From Model Require Import Base B64 IntCodec.
+From Model Require Import Base B64 IntCodec PyVal Json.
 Open Scope N_scope.
 
 Inductive c19case :=
@@ -9,7 +9,35 @@ Inductive c19case :=
 | CI2B (z : Z) (expect : res (list N))
 | CB2I (s : list N) (expect : res Z)
 | CEncInt (z : Z) (bits : N) (expect : res bytes)
-| CDecInt (s : bytes) (expect : res Z).
+| CDecInt (s : bytes) (expect : res Z)
+| CJDump (v : pv) (expect : list N)            (* json.dumps(v, ensure_ascii=True, separators=(",",":")) *)
+| CJLoad (s : list N) (expect : option pv)     (* json.loads(text): Some v / None = ValueError *)
+| CJB64 (h : pv) (expect : list N).            (* util.json_b64encode(h) *)
+
+(* structural equality of float-free values (order-sensitive for dicts: the
+   harness passes dicts in Python's insertion order) *)
+Fixpoint pv_same (a b : pv) {struct a} : bool :=
+  match a, b with
+  | PNone, PNone => true
+  | PBool x, PBool y => Bool.eqb x y
+  | PInt x, PInt y => (x =? y)%Z
+  | PStr s, PStr t => str_eqb s t
+  | PList l, PList m =>
+      (fix go (l m : list pv) {struct l} : bool :=
+         match l, m with
+         | [], [] => true
+         | x :: l', y :: m' => pv_same x y && go l' m'
+         | _, _ => false
+         end) l m
+  | PDict d, PDict e =>
+      (fix go (d : list (str * pv)) (e : list (str * pv)) {struct d} : bool :=
+         match d, e with
+         | [], [] => true
+         | (k, x) :: d', (k2, y) :: e' => str_eqb k k2 && pv_same x y && go d' e'
+         | _, _ => false
+         end) d e
+  | _, _ => false
+  end.
 
 Definition c19_check (c : c19case) : bool :=
   match c with
@@ -19,11 +47,19 @@ Definition c19_check (c : c19case) : bool :=
   | CB2I s e => res_eqb Z.eqb (base64_to_int s) e
   | CEncInt z b e => res_eqb beqb (encode_int z b) e
   | CDecInt s e => res_eqb Z.eqb (decode_int s) e
+  | CJDump v e => beqb (json_print v) e
+  | CJLoad s e =>
+      match json_loads s, e with
+      | POk v, Some w => pv_same v w
+      | PErr, None => true
+      | _, _ => false
+      end
+  | CJB64 h e => beqb (json_b64encode h) e
   end.
 
 (* integers are shown as (sign, big-endian octets): printing huge decimal
    numbers is slow *)
-Inductive c19out := OB (r : res bytes) | OZ (r : res (bool * bytes)).
+Inductive c19out := OB (r : res bytes) | OZ (r : res (bool * bytes)) | OJ (r : pres pv).
 Definition zshow (r : res Z) : res (bool * bytes) :=
   match r with Ok z => Ok ((z <? 0)%Z, N_to_be_min (Z.abs_N z)) | Err e => Err e end.
 Definition c19_show (c : c19case) : c19out :=
@@ -34,4 +70,7 @@ Definition c19_show (c : c19case) : c19out :=
   | CB2I s _ => OZ (zshow (base64_to_int s))
   | CEncInt z b _ => OB (encode_int z b)
   | CDecInt s _ => OZ (zshow (decode_int s))
+  | CJDump v _ => OB (Ok (json_print v))
+  | CJLoad s _ => OJ (json_loads s)
+  | CJB64 h _ => OB (Ok (json_b64encode h))
   end.
